@@ -751,3 +751,142 @@ theorem crc_denotes (inner : Src σ) (check : UInt32) (ae2 : Bool) {s : σ} {B :
   crc_denotes_nz inner check ae2 (guardZero_denotes h)
 
 end ZipVerif.Model.Layers
+
+namespace ZipVerif.Model.Layers
+open ZipVerif ZipVerif.Spec
+
+variable {σ : Type}
+
+/-! ### Codec hypotheses (finding F3) -/
+
+/-- The all-streams hypothesis implies the per-stream one. -/
+theorem Codec.ChunkIndependentNZ.on {c : Codec} (hc : c.ChunkIndependentNZ) (C : Bytes) (o : Term) :
+    c.ChunkIndependentOn C o :=
+  fun inner s h => hc.denotes inner s C o h
+
+theorem storedCodec_on (C : Bytes) (o : Term) : storedCodec.ChunkIndependentOn C o :=
+  fun _ _ h => guardZero_denotes h
+
+theorem xorCodec_on (C : Bytes) (o : Term) : xorCodec.ChunkIndependentOn C o :=
+  fun inner _ h => guardZero_denotes (map_layer_denotes _ inner () h)
+
+theorem xor_mapBytes_involutive (p : Bytes) :
+    mapBytes (fun (_ : Unit) b => (b ^^^ 0x55, ())) () (p.map (· ^^^ 0x55)) = p := by
+  induction p with
+  | nil => rfl
+  | cons b bs ih =>
+    simp only [List.map_cons, mapBytes, ih]
+    congr 1
+    rw [UInt8.xor_assoc]
+    simp
+
+/-- `xorCodec` decodes what `map (xor 0x55)` encodes, under every chunking. -/
+theorem xorCodec_intact : xorCodec.IntactOK (fun p => p.map (· ^^^ 0x55)) :=
+  ⟨fun p => by simp only [xorCodec, xor_mapBytes_involutive], fun p => xorCodec_on _ _⟩
+
+theorem all_of_prefix {bs rest r' : Bytes} {f : UInt8 → Bool} (h : rest = bs ++ r')
+    (ha : rest.all f = true) : bs.all f = true ∧ r'.all f = true := by
+  rw [h, List.all_append, Bool.and_eq_true] at ha
+  exact ha
+
+/-- On a stream inside the format the picky decoder is the identity, under every chunking. -/
+theorem pickyLayer_denotes (inner : Src σ) {s : σ} {C : Bytes} {o : Term}
+    (hC : C.all (· < 0x80) = true) (h : Denotes inner s C o) : Denotes (pickyLayer inner) s C o := by
+  apply Denotes.of_invariant (fun s' r => Denotes inner s' r o ∧ r.all (· < 0x80) = true)
+  · rintro s1 rest n ⟨hd, hall⟩
+    obtain ⟨hok, herr, hpanic⟩ := hd.step n
+    match e : inner.rd s1 n with
+    | (.ok bs, s') =>
+      obtain ⟨hlen, hz, r', hr', hd'⟩ := hok bs s' e
+      obtain ⟨hb, hr⟩ := all_of_prefix hr' hall
+      have hv : (pickyLayer inner).rd s1 n = (.ok bs, s') := by
+        simp only [pickyLayer, e, hb, if_true]
+      exact stepOK_of_ok hv hlen hz ⟨r', hr', hd', hr⟩
+    | (.err e', s') =>
+      have hv : (pickyLayer inner).rd s1 n = (.err e', s') := by
+        simp only [pickyLayer, e]
+      exact stepOK_of_err hv (herr e' s' e)
+    | (.panic, s') => exact absurd e (hpanic s')
+  · exact ⟨h, hC⟩
+
+theorem pickyCodec_on_intact {C : Bytes} (hC : C.all (· < 0x80) = true) (o : Term) :
+    pickyCodec.ChunkIndependentOn C o := by
+  intro σ inner s h
+  have hd : pickyCodec.decode C o = (C, o) := by simp only [pickyCodec, hC, if_true]
+  rw [hd]
+  exact guardZero_denotes (pickyLayer_denotes inner hC h)
+
+/-- … and on a stream outside the format its result DOES depend on the chunking: the all-streams
+hypothesis fails for it (as it does for zstd / flate2 / bzip2). -/
+theorem pickyCodec_not_chunk_independent : ¬ pickyCodec.ChunkIndependentNZ := by
+  intro hc
+  have h := hc.denotes scripted ⟨[1, 0x80], [], [], none⟩ [1, 0x80] .eof (scripted_denotes _) [2]
+  have e : (guardZero (pickyCodec.layer scripted)).rd
+      (pickyCodec.init (⟨[1, 0x80], [], [], none⟩ : Scripted)) 2 =
+        (.err .invalidData, ({ rest := [], cur := [], full := [], fail := none } : Scripted)) := rfl
+  have hd : (pickyCodec.decode [1, 0x80] .eof).1 = [1] := by decide
+  rw [conforms_err e, hd] at h
+  exact absurd h.1 (by decide)
+
+/-! ### The declared CRC changed, everything else (reader below, schedule) the same -/
+
+/-- If a read loop over `Crc32Reader(inner)` with declared CRC `check` ends with a clean end-of-file,
+the same loop - same reader below, whatever it is, same buffer sizes - with any other declared CRC
+returns the same bytes and then fails with "Invalid checksum". -/
+theorem readToEnd_crc_other_check (inner : Src σ) (check check' : UInt32) (hne : check' ≠ check)
+    (reqs : List Nat) (s : σ) (reg : UInt32) {b : Bytes} {s' : σ × UInt32}
+    (h : readToEnd (crcLayer inner check false) (s, reg) reqs = some (b, .eof, s')) :
+    ∃ s'', readToEnd (crcLayer inner check' false) (s, reg) reqs = some (b, .err .other, s'') := by
+  induction reqs generalizing s reg b s' with
+  | nil => cases h
+  | cons n ns ih =>
+    by_cases hn0 : n = 0
+    · subst hn0
+      simp only [readToEnd, crcLayer_rd_zero, Nat.lt_irrefl, false_and, if_false] at h ⊢
+      match e2 : readToEnd (crcLayer inner check false) (s, reg) ns, h with
+      | some (b2, t2, s2), h =>
+        simp only [Option.map_some, Option.some.injEq, Prod.mk.injEq, List.nil_append] at h
+        obtain ⟨hb, ht, hs⟩ := h
+        subst hb ht hs
+        obtain ⟨s3, e3⟩ := ih s reg e2
+        exact ⟨s3, by rw [e3]; rfl⟩
+    · have hpos : 0 < n := Nat.pos_of_ne_zero hn0
+      match e : inner.rd s n with
+      | (.ok bs, s1) =>
+        have hv := crcLayer_rd_ok (check := check) (ae2 := false) (reg := reg) hn0 e
+        have hv' := crcLayer_rd_ok (check := check') (ae2 := false) (reg := reg) hn0 e
+        by_cases hb : bs = []
+        · subst hb
+          by_cases hc : check = Crc32.finalize reg
+          · have hc' : check' ≠ Crc32.finalize reg := fun h2 => hne (h2.trans hc.symm)
+            rw [if_neg (fun h3 => h3.2.1 hc), if_pos (show ([] : Bytes).length ≤ n from Nat.zero_le _)] at hv
+            rw [if_pos ⟨rfl, hc', rfl⟩] at hv'
+            simp only [readToEnd, hv, hpos, true_and, if_true] at h
+            cases h
+            exact ⟨(s1, reg), by simp only [readToEnd, hv']⟩
+          · rw [if_pos ⟨rfl, hc, rfl⟩] at hv
+            simp only [readToEnd, hv] at h
+            cases h
+        · rw [if_neg (fun h3 => hb h3.1)] at hv hv'
+          by_cases hl : bs.length ≤ n
+          · rw [if_pos hl] at hv hv'
+            simp only [readToEnd, hv, hb, and_false, if_false] at h
+            match e2 : readToEnd (crcLayer inner check false) (s1, Crc32.updateBytes reg bs) ns, h with
+            | some (b2, t2, s2), h =>
+              simp only [Option.map_some, Option.some.injEq, Prod.mk.injEq] at h
+              obtain ⟨hb2, ht, hs⟩ := h
+              subst hb2 ht hs
+              obtain ⟨s3, e3⟩ := ih s1 _ e2
+              refine ⟨s3, ?_⟩
+              simp only [readToEnd, hv', hb, and_false, if_false, e3, Option.map_some]
+          · rw [if_neg hl] at hv
+            simp only [readToEnd, hv] at h
+            cases h
+      | (.err e', s1) =>
+        simp only [readToEnd, crcLayer_rd_err hn0 e] at h
+        cases h
+      | (.panic, s1) =>
+        simp only [readToEnd, crcLayer_rd_panic hn0 e] at h
+        cases h
+
+end ZipVerif.Model.Layers
